@@ -44,6 +44,25 @@ func (t *c09Task) Run(tid uint64) error {
 	return nil
 }
 
+// c09DepTask: the first task of a burst waits until the second one has started
+type c09DepTask struct {
+	c09Task
+	started *vsched.WaitGroup
+	second  bool
+}
+
+func (t *c09DepTask) Run(tid uint64) error {
+	s := t.s
+	s.runs[t.i]++
+	if t.second {
+		t.started.Done()
+	} else {
+		t.started.Wait()
+	}
+	s.wg.Done()
+	return nil
+}
+
 func (t *c09Task) HandleError(e error) {}
 
 func (s *c09State) note(f string, a ...interface{}) { s.notes = append(s.notes, fmt.Sprintf(f, a...)) }
@@ -123,6 +142,47 @@ func init() {
 						return body, c09Check(&s, n)
 					}})
 			}
+		}
+	}
+	// (a2) a burst of two tasks of which the first waits for the second to have
+	// started (legal with two or more workers): the second task must be started by
+	// an idle worker while the first is still running - one wake-up per task, not
+	// one per burst. Nobody calls WaitAll/JoinAll/SetWorkerCount afterwards.
+	for _, w := range []int{2, 3} {
+		for _, pre := range []bool{false, true} {
+			w, pre := w, pre
+			name := fmt.Sprintf("dependent-burst-w%d", w)
+			desc := fmt.Sprintf("%d workers, two tasks submitted back to back, the first waits until the second has started; driver waits on its own wait group only", w)
+			if pre {
+				name += "-idle"
+				desc += "; the workers are all asleep in the idle task before the burst"
+			}
+			q, t := 2, 3
+			if w == 3 {
+				q, t = 1, 2
+			}
+			register(&Scenario{Prop: "C09", Name: name, Quick: q, Thor: t,
+				Desc: desc,
+				Make: func() (func(), func(e *vsched.Exec) (string, *vsched.Violation)) {
+					var s *c09State
+					body := func() {
+						s = &c09State{tp: pool.NewThreadPool(), runs: make([]int, 2), stage: "start"}
+						s.tp.SetWorkerCount(w, false)
+						if pre {
+							vsched.Quiesce()
+						}
+						s.stage = "submit"
+						started := &vsched.WaitGroup{}
+						started.Add(1)
+						s.wg.Add(2)
+						s.tp.AddTask(&c09DepTask{c09Task{s, 0, -1}, started, false})
+						s.tp.AddTask(&c09DepTask{c09Task{s, 1, -1}, started, true})
+						s.wg.Wait()
+						s.stage = "done"
+						vsched.End()
+					}
+					return body, c09Check(&s, 2)
+				}})
 		}
 	}
 	// (b) WaitAll returns only when nothing is queued or running
